@@ -90,6 +90,8 @@ def make_bases(R):
         add("sadump-" + k, "sadump", [P("sadump-" + k)], [dg.c03_write_sadump(P("sadump-" + k), [1, 2, 5], kind=k, max_mapnr=16, ram=[0, 1, 2, 3, 5, 6])],
             "write_sadump(kind=%s)" % k)
     add("s390", "s390dump", [P("s390")], [dg.c03_write_s390(P("s390"))], "write_s390()")
+    add("s390os", "s390dump", [P("s390os")], [dg.c03_write_s390os(P("s390os"))],
+        "c03_write_s390os(): s390x dump whose lowcore points to an os_info page and a VMCOREINFO note (parsed when addrxlat.ostype is set)")
     # ---- hand-made content (no field table: offered as they are, plus truncations of the small ones)
     def special(name, fmt, path, gen, bounds=()):
         size = os.path.getsize(path)
